@@ -15,7 +15,7 @@ coord = (lon, lat, z|None, m|None) floats; dt = None | (start_us, end_us); a hol
 description with an empty hole list.
 """
 import pickle
-from datetime import datetime, timedelta, timezone
+from datetime import datetime, timedelta, timezone, tzinfo
 from fractions import Fraction
 
 from common import rat
@@ -46,6 +46,46 @@ def ival(x):
     return int(str(x).partition('@')[0])
 
 
+class StepZone(tzinfo):
+    """A zone with a daylight-saving jump written out by hand (no tz database needed): UTC-5, and UTC-4 between
+    BASE+30 min and BASE+10 days.  Arithmetic on its datetimes is wall-clock arithmetic, `start + (end - start)` is NOT
+    `end` when the two ends carry different tzinfo objects and a jump lies in between.  Every datetime gets its own
+    instance (two ends never share a tzinfo object: Python would subtract / compare them by wall clock)."""
+    ON = datetime(2020, 1, 1, 0, 30)            # UTC
+    OFF = datetime(2020, 1, 11, 0, 30)          # UTC
+    STD, DST = timedelta(hours=-5), timedelta(hours=-4)
+
+    def _dst_wall(self, dt):
+        w = dt.replace(tzinfo=None)
+        return self.ON + self.DST <= w < self.OFF + self.DST
+
+    def utcoffset(self, dt):
+        return self.DST if self._dst_wall(dt) else self.STD
+
+    def dst(self, dt):
+        return timedelta(hours=1) if self._dst_wall(dt) else timedelta(0)
+
+    def tzname(self, dt):
+        return 'VDT' if self._dst_wall(dt) else 'VST'
+
+    def fromutc(self, dt):
+        u = dt.replace(tzinfo=None)
+        return (u + (self.DST if self.ON <= u < self.OFF else self.STD)).replace(tzinfo=self)
+
+    def __repr__(self):
+        return 'StepZone()'
+
+
+def _zone(name):
+    if name == 'NY':
+        try:
+            from zoneinfo import ZoneInfo
+            return ZoneInfo('America/New_York')       # jumps at 2020-03-08T07:00Z (BASE_NY is half an hour before)
+        except Exception:  # noqa  -- no tz database: the hand-written zone stands in
+            return StepZone()
+    return StepZone()
+
+
 def mk_datetime(x):
     us, _, rep = str(x).partition('@')
     d = EPOCH + timedelta(microseconds=int(us))
@@ -53,6 +93,8 @@ def mk_datetime(x):
         return d.replace(tzinfo=None)
     if rep.startswith('o'):
         return d.astimezone(timezone(timedelta(minutes=int(rep[1:]))))
+    if rep.startswith('z'):
+        return d.astimezone(_zone(rep[1:]))
     return d
 
 
@@ -61,7 +103,11 @@ def inst(dt):
     return None if dt is None else (ival(dt[0]), ival(dt[1]))
 
 
-SPELLINGS = [('', ''), ('@n', '@n'), ('@o120', '@o120'), ('@o-330', '@n'), ('', '@o345'), ('@o840', '@o-720'), ('@n', '')]
+# the two ends of an interval may carry different tzinfo objects, also zones whose offset varies (`@zE` hand-written,
+# `@zNY` tz database); a zone-spelled pair never shares one tzinfo object between its ends
+SPELLINGS = [('', ''), ('@n', '@n'), ('@o120', '@o120'), ('@o-330', '@n'), ('', '@o345'), ('@o840', '@o-720'), ('@n', ''),
+             ('@zE', ''), ('@zE', '@zE'), ('@o60', '@zE'), ('@zNY', '@n'), ('@zE', '@o-300')]
+BASE_NY = int((datetime(2020, 3, 8, 6, 30, tzinfo=timezone.utc) - EPOCH) / US)
 
 
 def respell(dt, k):
